@@ -1,7 +1,7 @@
 (* C33 -- property theorems.  [table] is the list of (UTF-8 bytes, mangled name) dumped from
    getSupportedUnicodeCharactersDescriptions() in this run (C33_gen.v, regenerated every run). *)
 From Coq Require Import List Bool Arith NArith Ascii String.
-From C33 Require Import C32Spec C32Model C32Proofs C33Model C33General C33_gen C33TableOk C33Proofs.
+From C33 Require Import C32Spec C32Model C32Proofs C33Model C33General C33Roundtrip C33_gen C33TableOk C33Proofs.
 Import ListNotations.
 
 (* the mangled name encodes the code point: prefix + four upper-case hexadecimal digits of the UTF-8 decoding *)
@@ -49,3 +49,25 @@ Theorem C33_mangled_output_ascii : forall A eqb, (forall a b : A, eqb a b = true
   forall s, Forall (fun x => ok x \/ In x (map fst T)) s -> Forall ok (mangle_tokens A eqb T s).
 Proof. exact mangle_tokens_ok. Qed.
 Print Assumptions C33_mangled_output_ascii.
+
+(* GENERAL, byte level, the whole table: for EVERY byte string that does not contain the mangling prefix, the 136
+   successive replace_all passes of getMangledString followed by the 136 reverse passes of tfel-unicode-filt give the
+   string back (ill-formed UTF-8, unsupported characters and fragments of supported characters included) *)
+Theorem C33_roundtrip_any_string : forall s : bytes, ~ occurs prefix s -> demangle table (mangle table s) = s.
+Proof. exact (roundtrip_bytes table general_table_ok). Qed.
+Print Assumptions C33_roundtrip_any_string.
+
+(* GENERAL: a string made of ASCII bytes and of characters of the table is mangled to an ASCII string *)
+Theorem C33_mangled_ascii_any_string : forall pieces : list bytes,
+  Forall (fun p => (exists a, p = [a] /\ is_ascii a = true) \/ In p (map fst table)) pieces ->
+  Forall (fun a => is_ascii a = true) (mangle table (List.concat pieces)).
+Proof. exact (mangled_ascii_bytes table general_table_ok). Qed.
+Print Assumptions C33_mangled_ascii_any_string.
+
+(* the same for ANY table that satisfies the decidable side conditions [general_okb] (characters: a lead byte followed by
+   continuation bytes, none a prefix of another; names: the mangling prefix followed by anything, ASCII, first byte not
+   repeated, none a prefix of another) *)
+Theorem C33_roundtrip_any_table : forall T : table_t, general_okb T = true ->
+  forall s : bytes, ~ occurs prefix s -> demangle T (mangle T s) = s.
+Proof. exact roundtrip_bytes. Qed.
+Print Assumptions C33_roundtrip_any_table.
